@@ -617,19 +617,20 @@ func respBodyPieces(class string, rng *rand.Rand) []int {
 }
 
 type scriptedResp struct {
-	status   int
-	hdrs     []hpair
-	trailers []hpair
-	declared int
-	interim  []int
-	noBody   bool
-	length   bool
-	in       map[string]interface{}
-	head     []byte
-	pieces   [][]byte
-	chunked  bool
-	tail     []byte
-	close    bool
+	slowHead, slowBody time.Duration // a backend that goes quiet before its header / in the middle of its body
+	status             int
+	hdrs               []hpair
+	trailers           []hpair
+	declared           int
+	interim            []int
+	noBody             bool
+	length             bool
+	in                 map[string]interface{}
+	head               []byte
+	pieces             [][]byte
+	chunked            bool
+	tail               []byte
+	close              bool
 }
 
 func buildResp(c respCase, rng *rand.Rand, id string) *scriptedResp {
@@ -866,7 +867,13 @@ func httpRespDriver(a *Args) {
 			c.Write([]byte("HTTP/1.1 200 OK\r\nContent-Length: 2\r\n\r\nok"))
 			return true
 		}
+		if s.slowHead > 0 {
+			time.Sleep(s.slowHead)
+		}
 		c.Write(s.head)
+		if s.slowBody > 0 && len(s.pieces) == 1 {
+			time.Sleep(s.slowBody)
+		}
 		for i, p := range s.pieces {
 			if s.chunked {
 				fmt.Fprintf(c, "%x\r\n", len(p))
@@ -876,7 +883,7 @@ func httpRespDriver(a *Args) {
 				c.Write(p)
 			}
 			if i == 0 && len(s.pieces) > 1 {
-				time.Sleep(3 * time.Millisecond)
+				time.Sleep(3*time.Millisecond + s.slowBody)
 			}
 		}
 		if s.chunked {
@@ -931,7 +938,20 @@ func httpRespDriver(a *Args) {
 			if cfgTag != "" {
 				id = fmt.Sprintf("p%d%sk%d", c.N, pass, ci)
 			}
+			var quiet time.Duration
+			if f := strings.SplitN(pass, ":", 2); len(f) == 2 {
+				// pass "qh:<ms>" / "qb:<ms>": the backend is quiet for that long before its header / inside its body
+				ms, _ := strconv.Atoi(f[1])
+				quiet = time.Duration(ms) * time.Millisecond
+				pass = f[0] + f[1]
+				id = fmt.Sprintf("p%d%s", c.N, pass)
+			}
 			s := buildResp(c, rng, id)
+			if quiet > 0 && strings.HasPrefix(pass, "qh") {
+				s.slowHead = quiet
+			} else if quiet > 0 {
+				s.slowBody = quiet
+			}
 			mu.Lock()
 			scripts[id] = s
 			mu.Unlock()
@@ -946,7 +966,9 @@ func httpRespDriver(a *Args) {
 			if h2 {
 				sig = "h2c-" + sig
 			}
-			if pass != "" {
+			if quiet > 0 {
+				sig += ":quiet-" + pass
+			} else if pass != "" {
 				sig += ":concurrent"
 			}
 			sig += cfgTag
@@ -960,7 +982,7 @@ func httpRespDriver(a *Args) {
 			conn, err := net.DialTimeout("tcp", addr, 5*time.Second)
 			errText := ""
 			if err == nil {
-				conn.SetDeadline(time.Now().Add(60 * time.Second))
+				conn.SetDeadline(time.Now().Add(60*time.Second + quiet))
 				conn.Write([]byte(raw))
 				status, hdr, body, trailer, interim, rerr := readFinalResponse(conn, c.Method)
 				conn.Close()
@@ -1020,6 +1042,30 @@ func httpRespDriver(a *Args) {
 		runConcurrently(len(sel), 16, func(i int) {
 			one(sel[i], "c", rand.New(rand.NewSource(int64(hx.Seed())*1000003+int64(i))))
 		})
+		if cfgTag == "" && a.Mode == "" {
+			// exchanges in which the backend goes quiet for longer than common time-outs (before its header, inside
+			// its body), all at the same time: the response is the same response
+			type quietCase struct {
+				c    respCase
+				pass string
+			}
+			var qs []quietCase
+			for _, d := range pauseClasses() {
+				k := 0
+				for _, c := range sel {
+					if c.Method == "HEAD" || c.Status == 204 || c.Status == 304 || c.Body == "empty" || c.Interim != "none" {
+						continue
+					}
+					qs = append(qs, quietCase{c, fmt.Sprintf("qh:%d", d.Milliseconds())}, quietCase{c, fmt.Sprintf("qb:%d", d.Milliseconds())})
+					if k++; k == 3 {
+						break
+					}
+				}
+			}
+			runConcurrently(len(qs), len(qs)+1, func(i int) {
+				one(qs[i].c, qs[i].pass, rand.New(rand.NewSource(int64(hx.Seed())*7919+int64(i))))
+			})
+		}
 		agent.Kill()
 		proxy.Kill()
 		if atomic.LoadInt32(&dead) != 0 {
